@@ -18,6 +18,7 @@ REQUIRED_LABELS = [
     "retry-delay-geometric",
     "attempts-bounded-by-maximum",
     "each-send-dispatched-in-one-batch",
+    "retry-carries-the-same-messages",
 ]
 
 ASSUMPTIONS = [
@@ -49,7 +50,7 @@ def bounds(tier):
         "max_req_attempts": "SymInt in [1,4]",
         "fault_budget": 3 if q else 4,
         "retry_interval": [0.25, 1.0],
-        "batching": ["off", "every_n=2"],
+        "batching": ["off", "every_n=2", "every_t=5s with retry interval 6s (1 and 2 partitions)"],
         "outside": "more than 2 partitions / 4 sends; the network below the client contract",
     }
 
@@ -85,6 +86,30 @@ def jobs(tier):
                         "errcodes": 2,
                     }
                 )
+    # time-triggered batching: ticks of the batch timer interleave with unresolved batches and their retry timers
+    for parts in (1, 2):
+        out.append(
+            {
+                "acks": 1,
+                "batch": True,
+                "batch_n": 50,
+                "batch_b": 0,
+                "batch_t": 5,
+                "codec": CODEC_NONE,
+                "api": 0,
+                "K": 7 if q else 9,
+                "sends": 3,
+                "faults": 2,
+                "max_attempts": 4,
+                "interval": 6.0,
+                "two_topics": False,
+                "cancel": False,
+                "stop": False,
+                "variants": 1,
+                "errcodes": 1,
+                "parts": parts,
+            }
+        )
     return out
 
 
